@@ -180,6 +180,10 @@ struct HashMgrSim : Sim {
                 // flight for the rest of the run while the other clients keep the lanes busy; the manager is abandoned with the giant
                 // unfinished (legal), so the run costs no more than an ordinary one. Only families with >= 4 lanes (the others hash a
                 // job to the end inside submit).
+                // swarm knob: some message segments lie inside the library's own static data (around the constant tables of the algorithm
+                // under test): a caller may hash any readable memory, and code that uses one of its own addresses as a sentinel or scratch
+                // must still hash it correctly
+                p.cfg["libdata"] = g.chance(1, 8) ? 1 : 0;
                 p.cfg["giant"] = (lanes >= 4 && K >= 2 && g.chance(1, 12)) ? (int64_t) (1 + g.below(1 << 20)) : 0;
                 p.cfg["giant_at"] = (int64_t) g.below(40);
                 bool giant_full = false;
@@ -254,6 +258,7 @@ struct HashMgrSim : Sim {
                 int len_mode = 0;
                 int64_t len_fixed = 0;
                 bool jump_run = false;    // C15 counter-jump workload
+                bool libdata = false;     // some segments are taken from the library's static data
                 int64_t giant = 0;        // != 0: client 0 is the giant client
                 bool giant_inflight = false;
                 bool poisoned_api = false; // an earlier rejection happened (C11 "later valid call" clause is live)
@@ -482,6 +487,36 @@ struct HashMgrSim : Sim {
                 }
         }
 
+        // a segment inside the library's static data: a block boundary of the job falls on one of the data symbols that belong to the
+        // algorithm's own source files; returns false when that does not fit into the section
+        bool libdata_pick(St &s, Client &c, const Op &o, uint8_t **buf, uint32_t *len)
+        {
+                static std::map<int, std::vector<uintptr_t>> anchors;
+                static uintptr_t lo = 0, hi = 0;
+                if (!lo && !section_range(".isal_rw", &lo, &hi))
+                        return false;
+                auto it = anchors.find((int) s.d->a);
+                if (it == anchors.end()) {
+                        std::vector<uintptr_t> v;
+                        for (auto &kv : symbols_in_of_file(lo, hi, s.d->name))
+                                if (kv.second % 16 == 0 && kv.first.find("_dispatched") == std::string::npos && (v.empty() || v.back() != kv.second))
+                                        v.push_back(kv.second);
+                        it = anchors.emplace((int) s.d->a, v).first;
+                }
+                if (it->second.empty())
+                        return false;
+                const uint64_t B = s.d->block;
+                uintptr_t anchor = it->second[(size_t) (o.c >> 4) % it->second.size()];
+                uint64_t pend = c.started ? c.total % B : 0;
+                uint64_t lead = (B - pend) % B + B * (uint64_t) ((o.c >> 10) % 3);
+                uint64_t n = lead + B * (uint64_t) (1 + (o.c >> 12) % 3) + (uint64_t) (((o.c >> 14) & 1) ? (o.c >> 5) % B : 0);
+                if (anchor < lo + lead || anchor - lead + n > hi)
+                        return false;
+                *buf = (uint8_t *) (anchor - lead);
+                *len = (uint32_t) n;
+                return true;
+        }
+
         uint8_t *make_buffer(St &s, Client &c, int ci, uint32_t len, int64_t d)
         {
                 Env &e = *s.env;
@@ -563,6 +598,8 @@ struct HashMgrSim : Sim {
                         uint8_t *z = e.mem.alloc(0, 1, END_FLUSH, nullptr, "zero-length LAST (dangling)", R_INPUT);
                         buf = z;
                         s.r->cov.hit("fault_zero_length_last_dangling_ptr");
+                } else if (s.libdata && ((o.d >> 8) & 3) == 1 && libdata_pick(s, c, o, &buf, &len)) {
+                        s.r->cov.hit("probe_segment_inside_library_static_data");
                 } else
                         buf = make_buffer(s, c, ci, len, o.d);
                 if (begin) {
@@ -845,6 +882,7 @@ struct HashMgrSim : Sim {
                 s.len_mode = (int) p.get("len_mode");
                 s.len_fixed = p.get("len_fixed");
                 s.giant = p.get("giant");
+                s.libdata = p.get("libdata") != 0;
                 s.tag = std::string(s.d->name) + "/" + s.f->name + "/" + (s.api == API_FAMILY ? "family" : s.api == API_ISAL ? "isal" : "legacy");
                 const AlgoDesc &d = *s.d;
                 e.ev(hash_str(s.tag.c_str()));
